@@ -14,7 +14,7 @@ pub fn prop() -> Prop {
     Prop {
         id: "C09",
         level: "model_checking",
-        rule: "all streams of <=4 (thorough <=5) rows {k,v,id} over the group keys {\"a\",\"b\",\"\",\"é\",1,null,absent} (including the empty stream and streams whose every row is dropped) x 10 upstream pipelines (none, select, filter, unique, sort by id desc, sort by the mixed-type key, skip+take, split, take 0, select+sort+skip+take) x {--group-by=.k, --group-by=(get . \"k\"), --merge} x {json, text output}; long cyclic streams of 17 and 40 rows; non-trivial = two rows share a key or a row is dropped for its key; distinct by construction",
+        rule: "all streams of <=4 (thorough <=5) rows {k,v,id} over the group keys {\"a\",\"b\",\"\",\"é\",1,null,absent} (including the empty stream and streams whose every row is dropped) x 11 upstream pipelines (none, select, select of the key only (so that rows repeat), filter, unique, sort by id desc, sort by the mixed-type key, skip+take, split, take 0, select+sort+skip+take) x {--group-by=.k, --group-by=(get . \"k\"), --merge} x {json, text output}; long cyclic streams of 17 and 40 rows; non-trivial = two rows share a key or a row is dropped for its key; distinct by construction",
         explanation: "exactly one value must be printed, after the input ended; it is compared (a) with the documented grouping applied to the rows the same pipeline prints without grouping (differential) and (b) with the reference pipeline",
         assumptions: COMMON_ASSUMPTIONS.to_vec(),
         guards: vec!["empty-input", "no-row-survives", "non-string-key-dropped", "absent-key-dropped", "two-rows-share-a-key", "limiter-before-grouper", "empty-string-key", "non-ascii-key", "text-output"],
@@ -47,6 +47,7 @@ fn upstreams() -> Vec<Up> {
     vec![
         mk("none", &|_| {}, false),
         mk("select", &|c| c.selects = vec![(p(".k"), "k".into()), (p(".id"), "id".into())], false),
+        mk("select-k-only", &|c| c.selects = vec![(p(".k"), "k".into())], false),
         mk("filter", &|c| c.filter = Some(p("(!= .id 1)")), false),
         mk("unique-on-k", &|c| {
             c.selects = vec![(p(".k"), "k".into())];
